@@ -10,6 +10,7 @@ import (
 	"context"
 	"encoding/hex"
 	"fmt"
+	"gitlab.com/aquachain/aquachain/zzverif/ref/refhdr"
 	"math/big"
 	"os"
 	"runtime/debug"
@@ -467,6 +468,13 @@ func replay(run *ev.Run, d *ev.ReplayDoc, col *collector) {
 				col.check(d.Scenario, d.Oracle, d.CaseID, d.Detail, func() string { return probeSchedule(s, cfg, height.Uint64()) })
 			}
 		}
+	case "uncle-version":
+		num := func(k string) int { f, _ := d.Detail[k].(float64); return int(f) }
+		cl, _ := d.Detail["class"].(string)
+		c := uncleCase{num("fork"), num("dist"), uint64(num("nonce")), cl}
+		col.check(d.Scenario, d.Oracle, d.CaseID, d.Detail, func() string {
+			return probeUncle(params.Testnet2ChainConfig, refhdr.ByName("testnet2"), c)
+		})
 	default:
 		ev.Broken("replay: unknown kind %q", kind)
 	}
@@ -590,6 +598,7 @@ func TestCheck(t *testing.T) {
 	timed("digest", func() { partDigest(run, col) })
 	timed("ethash_full", func() { partEthashFull(run, col) })
 	timed("shared", func() { partShared(run, col) })
+	timed("uncle_version", func() { partUncleVersion(run, col) })
 	timed("sealer", func() { partSealer(run, col, capped) })
 	if run.Thorough() {
 		timed("ethash_real_size", func() { partEthashRealSize(run, col) })
